@@ -351,6 +351,8 @@ func keptCase(s sqCase) (square.Square, [][]byte, error) {
 
 // ---- C01 ----
 func genC01(c *Ctx) {
+	emptyTxOK = true
+	defer func() { emptyTxOK = false }()
 	shortInner = true
 	defer func() { shortInner = false }()
 	c.rule = "mixed tx lists (0-14 txs, normal sizes from the compact hot list, 1-4 blobs per blob tx with sparse hot sizes, versions 0/1, 2-5 namespaces) x max in powers of two (tight so that appends are refused) x thresholds; Build, Construct(kept), each twice; non-trivial = distinct case where something was kept"
@@ -556,6 +558,8 @@ func placements(sq square.Square, kept [][]byte) ([]placement, error) {
 
 // ---- C03 ----
 func genC03(c *Ctx) {
+	emptyTxOK = true
+	defer func() { emptyTxOK = false }()
 	shortInner = true
 	defer func() { shortInner = false }()
 	c.rule = "squares from Build and Construct over mixed lists as in C01; direct scan: side, share count and size, namespace order, region structure, canonical padding everywhere outside the two compact sequences and the blobs; non-trivial = distinct case with at least one blob or two transactions"
@@ -675,6 +679,9 @@ func genC04(c *Ctx) {
 	defer func() {
 		for i := 0; i < 25*c.scale; i++ {
 			liveBuilderHistory(c, c.rng, randSquareCase(c, c.rng, false, false), "Builder (live)")
+			if i%12 == 5 {
+				liveBuilderHistory(c, c.rng, manyBlobLiveCase(c.rng), "Builder (live, more than 64 blobs)")
+			}
 		}
 	}()
 	c.rule = "constructed squares over ordered lists with several blobs (equal and different namespaces, versions 0/1, boundary lengths); every (blob tx, blob): recorded index vs verbatim shares, alignment, disjointness and order, BlobShareRange incl. out-of-range indexes; non-trivial = distinct case with >= 2 blobs"
@@ -760,6 +767,7 @@ func genC04(c *Ctx) {
 		}
 	}
 	c.noModel = false
+	helperCases(c)
 }
 
 // ---- C06 ----
@@ -772,6 +780,8 @@ func occupied(sq square.Square) int {
 }
 
 func genC06(c *Ctx) {
+	emptyTxOK = true
+	defer func() { emptyTxOK = false }()
 	shortInner = true
 	defer func() { shortInner = false }()
 	c.rule = "append sequences on a builder (accepted and refused ordinary and blob txs of hot sizes, tight maxima <= 64) with the observable state queried after every append and a final export; oracle: no Build error, estimate >= occupied shares, minimal side, refusal exactly on overflow (independent estimate), refused append leaves state unchanged; non-trivial = distinct sequence with a refused append or a blob"
@@ -789,11 +799,15 @@ func genC06(c *Ctx) {
 	for ci, s := range list {
 		if ci < nModel {
 			ops := make([]string, 0, 2*len(s.txs)+2)
-			for _, t := range s.txs {
+			for ti, t := range s.txs {
 				if t.blobs == nil {
 					ops = append(ops, "t"+hx(t.raw), "q")
 				} else {
 					ops = append(ops, "b"+hx(t.raw), "q")
+				}
+				if (ci+ti)%9 == 4 {
+					// a blob transaction without blobs, passed directly to the builder
+					ops = append(ops, "z"+hx(r.Bytes(pick(r, []int{1, 200, 440, 470, 1200}))), "q")
 				}
 			}
 			ops = append(ops, "x", "q")
@@ -840,6 +854,22 @@ func genC06(c *Ctx) {
 				after := fmt.Sprintf("%d/%d/%d/%d/%d/%d", b.CurrentSize(), len(b.Txs), len(b.Pfbs), len(b.Blobs), b.TxCounter.Size(), b.PfbCounter.Size())
 				c.check(before == after, "refused append", "changed the builder's observable state", wit)
 			}
+			if r.Intn(8) == 0 {
+				// a blob transaction without blobs appended directly: a PFB with no share indexes
+				zt := refTx{isBlob: true, inner: r.Bytes(pick(r, []int{1, 200, 440, 470, 1200}))}
+				before := fmt.Sprintf("%d/%d/%d/%d/%d/%d", b.CurrentSize(), len(b.Txs), len(b.Pfbs), len(b.Blobs), b.TxCounter.Size(), b.PfbCounter.Size())
+				would := refEstimate(normals, append(append([]refTx{}, pfbs...), zt), s.thr)
+				ok := b.AppendBlobTx(&tx.BlobTx{Tx: zt.inner})
+				c.check(ok == (would <= s.max*s.max), "Append (no blobs)", "not refused exactly when the estimate would exceed max squared", wit)
+				if ok {
+					pfbs = append(pfbs, zt)
+					c.check(b.CurrentSize() == would, "CurrentSize", "differs from the worst-case estimate of the rules", wit)
+				} else {
+					after := fmt.Sprintf("%d/%d/%d/%d/%d/%d", b.CurrentSize(), len(b.Txs), len(b.Pfbs), len(b.Blobs), b.TxCounter.Size(), b.PfbCounter.Size())
+					c.check(before == after, "refused append", "changed the builder's observable state", wit)
+				}
+				c.count("zero_blob_append")
+			}
 		}
 		sq, err := b.Export()
 		if c.check(err == nil, "Export", "error", wit) {
@@ -861,6 +891,8 @@ func genC06(c *Ctx) {
 
 // ---- C07 ----
 func genC07(c *Ctx) {
+	emptyTxOK = true
+	defer func() { emptyTxOK = false }()
 	shortInner = true
 	defer func() { shortInner = false }()
 	c.rule = "Construct and Build outputs compared byte for byte with an independent reference implementation of the layout rules (harness) and with the Coq model; lists as in C01 incl. equal namespaces (stability), versions 0/1; non-trivial = distinct case with a blob"
@@ -873,6 +905,7 @@ func genC07(c *Ctx) {
 	// Go side only (compared with the harness's reference layout, not with the model)
 	list = append(list, boundaryUnitCases(c, r)...)
 	list = append(list, bigSquareCases(c, r, false)...)
+	list = append(list, emptyInnerSweep(c, r)...)
 	for ci, s := range list {
 		if ci < nModel {
 			c.add("build", argsOf(s)...)
@@ -912,6 +945,35 @@ func genC07(c *Ctx) {
 			c.mark(s.shape())
 		}
 	}
+}
+
+// emptyInnerSweep: two blob transactions, the first with an inner transaction of every length 380..520 (so that
+// the worst-case PFB sequence ends on every offset around the first compact share boundary), the second with an
+// EMPTY inner transaction (its wrapper has no tx field at all: a size computed field by field instead of from
+// the encoding is two bytes off); and the same with the empty one first.
+func emptyInnerSweep(c *Ctx, r *Rng) []sqCase {
+	var out []sqCase
+	nss := blobNamespaces(r, 2)
+	for L := 380; L <= 520; L++ {
+		b1 := randBlob(r, nss, 100)
+		b1.data = r.Bytes(1 + r.Intn(400))
+		b2 := randBlob(r, nss, 100)
+		b2.data = r.Bytes(1 + r.Intn(400))
+		mk := func(inner []byte, b genBlob) genTx {
+			raw, err := tx.MarshalBlobTx(inner, b.blob())
+			if err != nil {
+				panic("harness: MarshalBlobTx: " + err.Error())
+			}
+			return genTx{raw: raw, blobs: []genBlob{b}}
+		}
+		l := []genTx{mk(r.Bytes(L), b1), mk(nil, b2)}
+		if L%2 == 1 {
+			l[0], l[1] = l[1], l[0]
+		}
+		out = append(out, sqCase{txs: l, max: 8, thr: 64})
+		c.count("empty_inner_tx_sweep")
+	}
+	return out
 }
 
 // alignedTxLen: a transaction length near `around` such that `prefix` stream bytes followed by the
@@ -1255,6 +1317,9 @@ func genC12(c *Ctx) {
 	defer func() {
 		for i := 0; i < 25*c.scale; i++ {
 			liveBuilderHistory(c, c.rng, randSquareCase(c, c.rng, false, false), "Builder (live)")
+			if i%12 == 5 {
+				liveBuilderHistory(c, c.rng, manyBlobLiveCase(c.rng), "Builder (live, more than 64 blobs)")
+			}
 		}
 	}()
 	c.rule = "ordered lists (as kept by greedy builds) with tx sizes ending exactly on share ends and PFBs one varint byte shorter than the worst case; TxShareRange for every index -2..len+1 vs the set of shares holding a byte of the unit (recomputed from stream offsets over the real wrapped PFBs), ParseTxs of exactly that range, splitter ShareRanges; non-trivial = distinct (case, index) spanning or starting after the first share"
@@ -1399,6 +1464,8 @@ func genC12(c *Ctx) {
 
 // ---- C14 ----
 func genC14(c *Ctx) {
+	emptyTxOK = true
+	defer func() { emptyTxOK = false }()
 	shortInner = true
 	defer func() { shortInner = false }()
 	c.rule = "operation histories: compact splitter {write, export, count} and builder {append tx / blob tx (accepted or refused), export, find range, find blob index, get wrapped PFB}; after every op the projected observable is compared with the model, and the final export with a twin object fed only the writes / accepted appends; non-trivial = distinct history with an export or query strictly between two writes/appends"
@@ -1507,6 +1574,12 @@ func genC14(c *Ctx) {
 			} else {
 				ops = append(ops, "b"+hx(t.raw))
 			}
+			if r.Intn(6) == 0 {
+				// a blob transaction WITHOUT blobs appended directly (the decoders refuse one, the builder
+				// API accepts it as a PFB with no share indexes); inner txs from a few bytes to more than a share
+				ops = append(ops, "z"+hx(r.Bytes(pick(r, []int{1, 30, 200, 300, 440, 470, 1200}))))
+				c.count("zero_blob_append")
+			}
 			for r.Bool(40) {
 				switch r.Intn(5) {
 				case 0, 1:
@@ -1543,6 +1616,10 @@ func genC14(c *Ctx) {
 				bt2, _, _ := tx.UnmarshalBlobTx(unhx(arg))
 				if b.AppendBlobTx(bt) {
 					twin.AppendBlobTx(bt2)
+				}
+			case 'z':
+				if b.AppendBlobTx(&tx.BlobTx{Tx: unhx(arg)}) {
+					twin.AppendBlobTx(&tx.BlobTx{Tx: unhx(arg)})
 				}
 			case 'x':
 				_, _ = b.Export()
@@ -1584,6 +1661,8 @@ func histShape(ops []string) string {
 
 // ---- C20 ----
 func genC20(c *Ctx) {
+	emptyTxOK = true
+	defer func() { emptyTxOK = false }()
 	c.rule = "GetShareRangeForNamespace on sorted namespace multisets (0-40 shares) with every present namespace, every gap, below-first and above-last; ParseShares (with and without padding) on constructed squares incl. version 1 blobs: tiling, single namespace, declared lengths, and with padding ignored exactly tx sequence, PFB sequence, one sequence per blob with payload = data; non-trivial = distinct (share list, query) or distinct square with a blob"
 	r := c.rng
 	for i := 0; i < 120*c.scale; i++ {
@@ -1770,4 +1849,5 @@ func genC20(c *Ctx) {
 			}
 		}
 	}
+	helperCases(c)
 }
